@@ -226,8 +226,9 @@ def rule_utf(ctx, m):
 
 
 # ---------------------------------------------------------------- value sets of predicates
-def value_set(fn, nid, name_d, width=16):
-    """list of disjoint sorted intervals of x in [0, 2^width) for which the condition holds"""
+def value_set(fn, nid, name_d, width=16, char_size=None):
+    """list of disjoint sorted intervals of x in [0, 2^width) for which the condition holds.
+    char_size: value of sizeof(Char_T) when the predicate also tests the character width"""
     full = (0, (1 << width) - 1)
     n = fn.nodes[fn.strip(nid)]
     k = n["k"]
@@ -255,9 +256,9 @@ def value_set(fn, nid, name_d, width=16):
         return comp(inter(comp(s), comp(t)))
 
     if k == "UnaryOperator" and n["op"] == "!":
-        return comp(value_set(fn, n["ch"][0], name_d, width))
+        return comp(value_set(fn, n["ch"][0], name_d, width, char_size))
     if k == "BinaryOperator" and n["op"] in ("&&", "||"):
-        a, b = value_set(fn, n["ch"][0], name_d, width), value_set(fn, n["ch"][1], name_d, width)
+        a, b = value_set(fn, n["ch"][0], name_d, width, char_size), value_set(fn, n["ch"][1], name_d, width, char_size)
         return inter(a, b) if n["op"] == "&&" else union(a, b)
     if k == "BinaryOperator" and n["op"] in ("<", "<=", ">", ">=", "==", "!="):
         op = n["op"]
@@ -270,6 +271,12 @@ def value_set(fn, nid, name_d, width=16):
             op = {"<": ">", "<=": ">=", ">": "<", ">=": "<=", "==": "==", "!=": "!="}[op]
         if c is None:
             raise Unrecognised("comparison without a constant: %s" % fn.text(nid))
+        if an["k"] == "UnaryExprOrTypeTraitExpr" and an.get("trait") == "sizeof" and "Char_T" in (an.get("ty") or ""):
+            if char_size is None:
+                raise Unrecognised("predicate depends on sizeof(Char_T)")
+            t = {"<": char_size < c, "<=": char_size <= c, ">": char_size > c, ">=": char_size >= c,
+                 "==": char_size == c, "!=": char_size != c}[op]
+            return [full] if t else []
         # x op c   (value casts of the unit to a wider unsigned type keep its value in this domain)
         if an["k"] in ("CXXFunctionalCastExpr", "CXXStaticCastExpr", "CStyleCastExpr", "CXXUnresolvedConstructExpr") and len(an.get("ch", [])) == 1:
             an = fn.nodes[fn.strip_casts(an["ch"][0])]
@@ -361,23 +368,27 @@ def rule_surrogate(ctx, m):
     if gate is None:
         raise AnalysisBroken("UnEscape: the surrogate gate (if (...) { ToUTF; continue; }) was not found")
     gn = ue.nodes[gate]
-    try:
-        direct = value_set(ue, gn["cond"], code_d["d"], 16)
-        pairing = []
-        pos = 0
-        for a, b in direct:
-            if a > pos:
-                pairing.append((pos, a - 1))
-            pos = b + 1
-        if pos <= 0xFFFF:
-            pairing.append((pos, 0xFFFF))
-        ok = pairing == [(0xD800, 0xDBFF)]
-        r.ob(ue.q, ue.text(gn["cond"]), ok,
-             "codes sent to the pairing branch: %s; reference [D800,DBFF]" % ", ".join("[%04X,%04X]" % p for p in pairing),
-             ue.loc(gn["cond"]), {"accepted_direct": direct})
-    except Unrecognised as e:
-        r.broke("surrogate predicate has an unrecognised shape: %s" % e)
-        pairing = None
+    for cs in (1, 2, 4):
+        try:
+            direct = value_set(ue, gn["cond"], code_d["d"], 16, char_size=cs)
+            pairing = []
+            pos = 0
+            for a, b in direct:
+                if a > pos:
+                    pairing.append((pos, a - 1))
+                pos = b + 1
+            if pos <= 0xFFFF:
+                pairing.append((pos, 0xFFFF))
+            if cs == 2:
+                # UTF-16 target: passing a surrogate unit through unchanged equals recombining and re-splitting
+                ok = pairing in ([(0xD800, 0xDBFF)], [])
+            else:
+                ok = pairing == [(0xD800, 0xDBFF)]
+            r.ob(ue.q, "%s [sizeof(Char_T)=%d]" % (ue.text(gn["cond"]), cs), ok,
+                 "codes sent to the pairing branch: %s; reference [D800,DBFF]%s" % (", ".join("[%04X,%04X]" % p for p in pairing) or "none", " (or none for UTF-16)" if cs == 2 else ""),
+                 ue.loc(gn["cond"]), {"accepted_direct": direct})
+        except Unrecognised as e:
+            r.broke("surrogate predicate has an unrecognised shape: %s" % e)
 
     # recombination: statements after the gate inside the same block that lead to the second ToUTF
     second = [c for c in astq.calls(ue, "ToUTF", body) if c not in list(ue.walk(gn["then"]))]
